@@ -180,6 +180,23 @@ def run_bounded(chk):
                                replay=lambda m, P=P, faces=faces, bad=bad, name=name: (True, {
                                    "constructor": "Polyhedron(vertices, faces)", "case": name, "vertices": P,
                                    "faces": [list(map(int, f)) for f in faces], "mismatches": bad[:6]}))
+    from . import stale
+    import numpy as np
+    cox = real_coxeter()
+    hfails = []
+
+    def measures(s):
+        return {"volume": s.volume, "surface_area": s.surface_area, "centroid": np.asarray(s.centroid, float),
+                "inertia_tensor": np.asarray(s.inertia_tensor, float), "face_areas": np.asarray(s.get_face_area(), float)}
+    base = {m[0]: m for m in ms}
+    for nm in ("voxel:U7", "extruded:L", "convexcopy:frustum"):
+        _, verts, faces = base[nm]
+        obj = cox.shapes.Polyhedron(np.asarray(verts, float) + np.array([3.0, -2.0, 5.0]), [list(f) for f in faces])
+        n_eval += stale.read_mutate_read(obj, measures, f"history:{nm}", hfails)
+    for nm, info in hfails[:3]:
+        n_bad += 1
+        chk.record(f"bounded:mesh_measures[{nm}]", fkey, "bounded-fail", "fresh-construction", detail=str(info)[:400], model={},
+                   replay=lambda m, info=info, nm=nm: (True, {"case": nm, **info}), kind="bounded")
     if not n_bad:
         chk.record("bounded:mesh_measures", fkey, "bounded-pass", "exact-oracle", kind="bounded", detail=f"{n_eval} meshes")
     chk.bounded.append({
@@ -187,7 +204,7 @@ def run_bounded(chk):
                   "== exact rational oracle of the closed mesh (relative tolerance 1e-9)",
         "bound": "8 voxel solids (cube, bar, L, U of 7 cubes, C, genus-1 frame of 8, stairs, 3-D T) with unit-square faces; "
                  "5 extruded simple polygons with ear-clipped caps; Polyhedron copies of the named convex solids with <= 12 "
-                 "vertices; 4 meshes also at sizes 1e-5 and 1e4; 4 rigid placements each (offset ~10 sizes, 2 exact rational rotations)",
+                 "vertices; 4 meshes also at sizes 1e-5 and 1e4; 4 rigid placements each (offset ~10 sizes, 2 exact rational rotations); 3 objects read, moved / resized / reoriented and re-read",
         "evaluations": n_eval, "distinct_nontrivial": len(ms),
         "rule": "distinct = different meshes; non-star-shaped: U7, C5, frame8, stairs, comb; genus 1: frame8",
         "samples": [{"mesh": m[0], "vertices": len(m[1]), "faces": len(m[2])} for m in ms[:3]],
